@@ -921,15 +921,15 @@ func FuzzVF_C10_UpdateCBOR(f *testing.F) {
 }
 
 func c10FuzzJudge(t *testing.T, pk *gabikeys.PublicKey, u *Update) {
-	if u.SignedAccumulator == nil {
-		return // nothing to verify against; Verify on it is a caller error, not an input
-	}
 	for _, e := range u.Events {
 		if e == nil || e.E == nil {
 			return
 		}
 	}
-	_, authentic := refAuthentic(pk, u)
+	authentic := false
+	if u.SignedAccumulator != nil { // a message without any accumulator is never authentic
+		_, authentic = refAuthentic(pk, u)
+	}
 	c := cloneUpdate(u)
 	var err error
 	if ps := vfh.Guard(func() { _, err = c.Verify(pk) }); ps != "" {
@@ -1124,10 +1124,13 @@ func TestVF_C10_WireStructure(t *testing.T) {
 								rec.FailT(ps+":decoding-update", det)
 								continue
 							}
-							if derr != nil || u.SignedAccumulator == nil {
-								continue // refused, or no accumulator at all to verify against (a caller-side check)
+							if derr != nil {
+								continue // refused by the decoder
 							}
-							_, authentic := refAuthentic(pk, &u)
+							authentic := false
+							if u.SignedAccumulator != nil { // a message without any accumulator is never authentic
+								_, authentic = refAuthentic(pk, &u)
+							}
 							var verr error
 							if ps := vfh.Guard(func() { _, verr = cloneUpdate(&u).Verify(pk) }); ps != "" {
 								rec.FailT(ps+":Update.Verify(decoded)", det)
